@@ -120,6 +120,13 @@ CHECKS = {
         note=PROOF_NOTE + "Modelled, not verified: torch's layer shape formulas and the reflect-padding precondition (oracle contract, validated by the trace correspondence); channel counts; the permute/reshape bookkeeping of the unrolled models (exercised end to end only).",
         technique="Coq proof (induction over depth on one axis + axis-decomposition lemma; bit lemma for the multiple-of-16 padding) over regenerated padding arithmetic + exact shape-trace correspondence + zoo enumeration",
         design="§6 C17"),
+    "C18": dict(
+        text="Theorems for every batch (any number of samples, any contents, any row function): an operation that acts on the rows of the (batch, groups, -1) view of a contiguous batch - what NormUnetModel2d/3d.norm/unnorm and NormConv2dGRU.norm/unnorm do - equals the per-sample operation mapped over the batch, its statistics are the per-sample statistics, "
+             "and the part of the result belonging to one sample is the same whatever the other samples are. That the blocks are of this form (view keeps the batch axis first, reduction over the last axis with keepdim, statistics of norm reused by unnorm), that StandardizationLayer only works along the coil and channel axes, and that no forward method under direct/nn stores into its module are regenerated from the source on every run. "
+             "The row model is tied to torch.reshape by exact correspondence of row sums. PARTIAL: the convolutional bodies are exercised only - every zoo model (68 entries) in eval mode, single versus batched with companions of extreme magnitude, repeated evaluation bit-exact, coil permutations; coil-sum permutation invariance is theorem C02.",
+        note=PROOF_NOTE + "Modelled, not verified: torch convolution / instance norm / batch norm in eval mode act per sample (oracle contract); 'to floating-point rounding' is measured against the model's own sensitivity to a rounding-level input perturbation (small images with normalisation layers amplify rounding).",
+        technique="Coq proof (list induction: chunking commutes with concatenation of equally sized samples) over regenerated view/reduction specifications + exact row-sum correspondence + single-vs-batched zoo oracle",
+        design="§6 C18"),
     "C19": dict(
         text="The likelihood block of the recurrent inference machines and the conjugate-gradient operators are regenerated on every run as operator terms, the CG updates as expressions over abstract vector-space operations. "
              "Theorems: the block equals A*(A x - M y) with A = M F E, A* = R F^-1 M (masking linear and idempotent); in any real inner-product space with A linear and A* its adjoint, Phi(x+h) = Phi(x) + 2<A*(Ax-b), h> + ||A h||^2 exactly, "
